@@ -87,3 +87,24 @@ Print Assumptions C10_cleared_cache_is_good.
 Print Assumptions C10_unused_buffer_contents_are_never_read.
 Print Assumptions C10_keygen_same_key_pair.
 Print Assumptions C10_buffer_only_shrinks.
+
+(* signing with a buffer = signing without: same result, same callback record, whenever the view is
+   absent or good *)
+From HbsLms Require Import Model.SignCore Proofs.AuxSignProofs Proofs.HssComplete.
+
+Theorem C10_sign_same_signature :
+  forall (n : nat) (H : bytes -> bytes) (blob msg aux : bytes) (cb : bytes -> bool),
+    (forall x, length (H x) = n) ->
+    (forall k p0 r oe aux1,
+        blob_parse K_src n blob = Ok k -> params_of_bytes K_src n (k_params k) = Ok (p0 :: r) ->
+        get_expanded K_src n H aux (k_seed k) (l_h (snd p0)) = Ok (oe, aux1) ->
+        Forall (wf_param K_src n) (p0 :: r)
+        /\ good_view K_src n H (l_h (snd p0)) (snd (root_seed_I K_src H (k_seed k)))
+                     (fst (root_seed_I K_src H (k_seed k))) (fst p0) oe) ->
+    (forall k p0 r, blob_parse K_src n blob = Ok k -> params_of_bytes K_src n (k_params k) = Ok (p0 :: r) ->
+                    exists oe aux1, get_expanded K_src n H aux (k_seed k) (l_h (snd p0)) = Ok (oe, aux1)) ->
+    let '(r, calls, _) := sign_core_aux K_src n H blob msg aux cb in
+    (r, calls) = sign_core K_src n H blob msg cb.
+Proof. intros n H blob msg aux cb HL. exact (sign_core_aux_same K_src n H HL blob msg aux cb). Qed.
+
+Print Assumptions C10_sign_same_signature.
